@@ -109,7 +109,7 @@ pub fn run(op: &str, input: &Value) -> Value {
         "message" => message(input),
         "tx.sign" => tx_sign(input),
         "typeddata" => typeddata(input),
-        "cli" => cli(input),
+        "cli" | "cli.new" => cli(input),
         "rlp.len" | "rlp.bytes" | "rlp.uint" | "rlp.list" | "eip712.encode_type" | "eip712.member_kind"
         | "mnemonic.entropy" => hooks(op, input),
         other => Err(format!("unknown op {other}")),
